@@ -199,8 +199,11 @@ fn run_history(gen: &Gen, scratch: &Path, h: &History, quick: bool, rep: &mut Re
                 Err(("command-fails".to_string(), format!("{desc}: exit status {:?}; {last_err}", o.code)))
             }
             else {
+                // No run ever completed before the killed one: nothing
+                // entitles `--update-after` to skip the update.
+                let must_update = *r == "vrps" || (*r == "vrps-update-after" && h.versions.len() == 1);
                 match *r {
-                    "vrps" => if o.lines == want_full { Ok("same-as-uninterrupted".to_string()) } else {
+                    _ if must_update => if o.lines == want_full { Ok("same-as-uninterrupted".to_string()) } else {
                         Err(("different-data".to_string(), format!("{desc}: output {:?}, an uninterrupted run gives {:?}", o.lines, want_full)))
                     },
                     "vrps-noupdate" | "vrps-update-after" => {
@@ -265,7 +268,8 @@ pub fn run(ctx: &Ctx) -> Report {
         abandoned update); every crash state is handed to `vrps \
         --noupdate`, `vrps`, `vrps --update-after 10` (thorough: also \
         `update`, `validate`); oracle: each exits 0; `vrps` yields exactly \
-        the data of an uninterrupted run; with --noupdate / --update-after \
+        the data of an uninterrupted run (so does --update-after when no \
+        run had completed before the killed one); with --noupdate / --update-after \
         every publication point shows its previous or its new complete \
         version; non-trivial = recoveries after a kill that happened".into();
     for h in histories(ctx.tier.thorough()) {
